@@ -152,6 +152,7 @@ class Sched(object):
         self.split = split                    # execute-at-server and deliver-response are separate events
         self.timer_choice = timer_choice
         self.fifo = True
+        self.extras = []                      # [(label, callable)] harness-side pending actions (e.g. consumer resume)
         self.log = []
         self.issued = 0
         self.steps = 0
@@ -249,6 +250,14 @@ class Sched(object):
             self._fire(ev, out)
         elif kind == "disconnect":
             self.disconnect(ev.conn, note_ev=ev)
+        elif kind == "lie":
+            # the server answers this read with altered bytes (first byte of the answer flipped)
+            self.pending.remove(ev)
+            out = ev.result if ev.executed else self._execute(ev)
+            if out[0] == "ok" and isinstance(out[1], bytes) and out[1]:
+                out = ("ok", bytes([out[1][0] ^ 0x01]) + out[1][1:])
+            self._note("fault:lie", ev, out)
+            self._fire(ev, out)
         else:
             raise HarnessError("unknown fault kind %r" % kind)
 
@@ -286,9 +295,13 @@ class Sched(object):
                 if self.fault_filter is not None and not self.fault_filter(e):
                     continue
                 for k in self.fault_kinds:
+                    if k == "lie" and e.meth not in ("read", "slot_readv"):
+                        continue
                     m.append(("fault:" + k, e.label(), e))
+        for (label, fn) in self.extras:
+            m.append(("extra", label, fn))
         nd = R.next_timer_delay()
-        if nd is not None and (not evs or (self.explore and self.timer_choice)):
+        if nd is not None and ((not evs and not self.extras) or (self.explore and self.timer_choice)):
             m.append(("timer", "+%.3fs" % nd, None))
         return m
 
@@ -303,8 +316,16 @@ class Sched(object):
             pick = 0
         kind, label, ev = m[pick]
         self.steps += 1
+        # every scheduler step takes one virtual millisecond, so that response times (which the
+        # downloader uses as a sort key for shares) are a deterministic function of the schedule
+        # instead of all being zero and leaving the order to id()-based set iteration
+        R.advance(0.001)
         if kind == "deliver":
             self.do_deliver(ev)
+        elif kind == "extra":
+            self.extras[:] = [x for x in self.extras if x[1] is not ev]
+            self.log.append(("extra", label, None))
+            ev()
         elif kind == "timer":
             self.timer_fires += 1
             self.log.append(("timer", label, None))
@@ -670,3 +691,15 @@ def explore_subtree(execute, root_prefix, d_bound, f_bound, on_exec, max_exec=No
             break
         stack.extend(children(p, trace, d_bound, f_bound))
     return n, capped
+
+
+def split_tasks(pmap, chunk_fn, cases, extra, d_bound, f_bound):
+    """Two-phase parallel exploration.  chunk_fn(tasks, *extra, d, f, max_exec, collect_children)
+    where a task is (case, root_prefix).  Phase 1 runs every root once and collects its first-level
+    children; phase 2 explores each child's subtree as a separate task.  Returns merged Result."""
+    r1 = pmap(chunk_fn, [(c, []) for c in cases], tuple(extra) + (0, 0, None, (d_bound, f_bound)))
+    kids = r1.notes.pop("children", [])
+    if kids:
+        r2 = pmap(chunk_fn, kids, tuple(extra) + (d_bound, f_bound, None, None), chunks=min(len(kids), 512))
+        r1.merge(r2)
+    return r1
